@@ -230,6 +230,19 @@ func registerVAPI(I map[string]intrinsicFn) {
 		}
 		return nil
 	}
+	// vAESCTR(key, iv, src): AES-CTR by the reference side of a differential
+	// harness; same keystream model as the stub of otr3.counterEncipher
+	I[P+"vAESCTR"] = func(w *Worker, fn *ssa.Function, a []Value) Value {
+		key, iv, src := a[0].(Slice), a[1].(Slice), a[2].(Slice)
+		dst := make(Slice, len(src))
+		for i := range dst {
+			dst[i] = w.tc.Const(8, 0)
+		}
+		if e, isErr := w.counterEncipher(key, iv, src, dst).(Iface); isErr && e.V != nil {
+			w.unsupported("vAESCTR with an invalid key size")
+		}
+		return dst
+	}
 	I[P+"vReach"] = func(w *Worker, fn *ssa.Function, a []Value) Value {
 		id := w.concStr(a[0], "reach id")
 		w.h.mu.Lock()
